@@ -25,6 +25,7 @@ import (
 	"math/rand"
 	"net"
 	"reflect"
+	"slices"
 	"strings"
 	"testing"
 	"time"
@@ -312,6 +313,7 @@ type layRec struct {
 	Eb     [][]int          `json:"eb"`     // per value: bytes of the encoding at [off, off+w)
 	Db     [][]int          `json:"db"`     // per value: the decoded field
 	Err0   string           `json:"err0"`   // first encode/decode error, if any
+	Diff   []string         `json:"diff"`   // fields whose decoded value differs from the input (for the report)
 	Vals0  map[string][]int `json:"vals0"`  // the complete first input value
 	Enc0   []int            `json:"enc0"`   // and its encoding
 	Canon0 bool             `json:"canon0"`
@@ -436,7 +438,7 @@ func baseStruct(a adaptor, m string, base string, ssds bool, rng *rand.Rand) any
 func runLay(c wcase, base string, rng *rand.Rand) *layRec {
 	a := adaptors[c.M]
 	r := &layRec{K: "lay", M: c.M, Ssds: c.Ssds, Base: base, F: c.F, W: c.W, Off: c.Off, Mode: c.Mode,
-		Pre: append([]int{}, c.Pre...), Vs: [][]int{}, Err0: "nil"}
+		Pre: append([]int{}, c.Pre...), Vs: [][]int{}, Err0: "nil", Diff: []string{}}
 	vs := c.Vs
 	if c.Mode == "sweep" {
 		vs = nil
@@ -488,6 +490,14 @@ func runLay(c wcase, base string, rng *rand.Rand) *layRec {
 			}
 			if reflect.DeepEqual(q, input) {
 				fl |= fRt
+			} else {
+				vi, vq := valsOf(input), valsOf(q)
+				for name := range vi {
+					if !reflect.DeepEqual(vi[name], vq[name]) && !slices.Contains(r.Diff, name) && len(r.Diff) < 8 {
+						r.Diff = append(r.Diff, name)
+					}
+				}
+				slices.Sort(r.Diff)
 			}
 			enc2, _, msg2 := a.encodeExact(q)
 			if msg2 == "nil" && bytes.Equal(enc, enc2) {
